@@ -132,6 +132,10 @@ func (w *world) afterSend(c *xchain, in *intent, out *txOutcome) {
 		w.checkSeqCounters(c)
 		return
 	}
+	if in.batch != nil {
+		w.afterBatch(c, in, out, sent, logged)
+		return
+	}
 	if len(sent) != 1 || len(logged) != 1 {
 		w.rec.Violate("C04", "one_packet_per_send", fmt.Sprintf("events=%d,logs=%d", len(sent), len(logged)), "successful send on %s: %d EventSendPacket, %d PacketSent logs", name, len(sent), len(logged))
 		return
@@ -156,9 +160,57 @@ func (w *world) afterSend(c *xchain, in *intent, out *txOutcome) {
 	w.ledgerSend(c, pk, out)
 }
 
+// afterBatch: one successful transaction performed several sends. Every PacketSent log must have
+// become a chain-level send (event, commitment, consecutive sequence per path), in order.
+func (w *world) afterBatch(c *xchain, in *intent, out *txOutcome, sent []pktEvent, logged [][]byte) {
+	w.rec.Probe("send.batch_ok")
+	if len(logged) != len(in.batch) || len(sent) != len(logged) {
+		w.rec.Violate("C04", "one_packet_per_send", fmt.Sprintf("batch:events=%d,logs=%d,calls=%d", len(sent), len(logged), len(in.batch)),
+			"successful multicall of %d sends on %s: %d EventSendPacket, %d PacketSent logs", len(in.batch), c.Cfg.Name, len(sent), len(logged))
+		return
+	}
+	siblings := map[string]bool{}
+	for _, bz := range logged {
+		if p, err := DecodePacket(bz); err == nil {
+			siblings[fmt.Sprintf("commitments/%s/%s/sequences/%d", p.SrcChain, p.DstChain, p.Sequence)] = true
+		}
+	}
+	e := exp{}
+	for i, si := range in.batch {
+		if !bytesEq(sent[i].Packet, logged[i]) {
+			w.rec.Violate("C19", "reencode", "send_event_bytes", "EventSendPacket bytes differ from PacketSent log bytes")
+		}
+		if si.dstIdx < 0 {
+			w.rec.Violate("C04", "send_to_invalid_dst", si.expectFail, "send to %q succeeded", si.dstName)
+			return
+		}
+		pk := w.recordSendAmong(c, logged[i], out, si.dstName, siblings)
+		if pk == nil {
+			return
+		}
+		contract := common.HexToAddress(pk.p.Sender)
+		label := "batch:" + lower(contract)
+		if w.extraTracked == nil {
+			w.extraTracked = map[string]common.Address{}
+		}
+		w.extraTracked[label] = contract
+		pk.dst, pk.sender, pk.payer, pk.tok, pk.amount, pk.receiver, pk.feeTok, pk.feeAmt = si.dstIdx, contract, si.user.Eth, si.tok, si.amount, si.receiver, si.feeTok, si.feeAmt
+		pk.call, pk.callback, pk.agent = si.call, si.callback, si
+		w.m.pkts[pktKey(c.idx, si.dstIdx, pk.seq)] = pk
+		w.wire = append(w.wire, &wireMsg{kind: "recv", from: c.idx, to: si.dstIdx, packet: logged[i], height: c.CurHdr.Height, key: pk.p.Triple(), dropped: map[int]bool{}})
+		w.expectSend(e, c, pk)
+	}
+	w.checkSeqCounters(c)
+	w.checkDelta(c, "send.batch", e)
+}
+
 // recordSend applies the C04/C19 checks to one emitted packet (top-level or nested send) and returns
 // its model record (not yet registered).
 func (w *world) recordSend(c *xchain, bz []byte, out *txOutcome, wantDst string) *pkt {
+	return w.recordSendAmong(c, bz, out, wantDst, nil)
+}
+
+func (w *world) recordSendAmong(c *xchain, bz []byte, out *txOutcome, wantDst string, siblings map[string]bool) *pkt {
 	name := c.Cfg.Name
 	p, err := DecodePacket(bz)
 	if err != nil {
@@ -168,6 +220,7 @@ func (w *world) recordSend(c *xchain, bz []byte, out *txOutcome, wantDst string)
 	if !bytesEq(p.Encode(), bz) {
 		w.rec.Violate("C19", "reencode", "contract_bytes_not_canonical", "re-encoding the contract's packet bytes differs")
 	}
+	w.repoCodecPacket(bz, "sent packet")
 	k := name + ">" + p.DstChain
 	w.m.sends[k]++
 	if p.SrcChain != name || p.DstChain != wantDst || p.Sequence != w.m.sends[k] {
@@ -178,14 +231,16 @@ func (w *world) recordSend(c *xchain, bz []byte, out *txOutcome, wantDst string)
 	wantKey := fmt.Sprintf("commitments/%s/%s/sequences/%d", p.SrcChain, p.DstChain, p.Sequence)
 	for _, dk := range d {
 		kk := strings.TrimPrefix(dk, "xibc:")
-		if strings.HasPrefix(kk, "commitments/") && kk != wantKey {
+		if strings.HasPrefix(kk, "commitments/") && kk != wantKey && !siblings[kk] {
 			w.rec.Violate("C04", "commitment", "extra_commitment", "send wrote commitment %s, expected only %s", kk, wantKey)
 		}
 	}
 	if got := out.post.stores["xibc"][wantKey]; got != string(sha(bz)) {
 		w.rec.Violate("C04", "commitment", "hash_mismatch", "commitment under %s is not sha256 of the emitted packet", wantKey)
 	}
-	w.checkSeqCounters(c)
+	if siblings == nil {
+		w.checkSeqCounters(c)
+	}
 	return &pkt{src: c.idx, seq: p.Sequence, bytes: bz, p: p, sentHeight: c.CurHdr.Height}
 }
 
@@ -280,6 +335,7 @@ func (w *world) afterRecv(c *xchain, in *intent, out *txOutcome) {
 	if !bytesEq(a.Encode(), acks[0].Ack) {
 		w.rec.Violate("C19", "reencode", "ack_bytes_not_canonical", "re-encoding the written ack differs")
 	}
+	w.repoCodecAck(acks[0].Ack, "written acknowledgement")
 	pk.ackBytes, pk.ackCode, pk.ackWritten = acks[0].Ack, a.Code, true
 	// C06: fee recipient recorded in the ack = counterparty address registered for (signer, source chain)
 	if want := c.registry[in.signer.Acc.String()][src.Cfg.Name]; !strings.EqualFold(a.Relayer, want) {
